@@ -52,6 +52,14 @@ def pcCmd (st : State) (toks : List String) : State × String :=
       | some c => ({ st with wire := st.wire ++ [{ rs := c.serial, kind := .reply t }] }, "ok")
       | none => (st, "bad-op")
     | _, _ => (st, "bad-op")
+  | ["peer-signal", i, tag] =>
+    -- a signal carrying the call's serial in REPLY_SERIAL: paired with the call like a reply (the pairing looks at that field only)
+    match i.toNat?, tag.toNat? with
+    | some i, some t =>
+      match st.calls[i]? with
+      | some c => ({ st with wire := st.wire ++ [{ rs := c.serial, kind := .reply t }] }, "ok")
+      | none => (st, "bad-op")
+    | _, _ => (st, "bad-op")
   | ["peer-stray", rs, tag] =>
     match rs.toNat?, tag.toNat? with
     | some r, some t => ({ st with wire := st.wire ++ [{ rs := r, kind := .reply t }] }, "ok")
